@@ -73,7 +73,9 @@ def check_case(case, ctx):
     want = [[ren[x] for x in k[:-2]] + list(k[-2:]) for k in c1["keys"]]
     classes = ["family:" + case["config"]["family"]] + ["tf:" + n for n in names]
     if want != c2["keys"]:
-        if c1["lp"] is not None and base.close(c1["lp"], c2["lp"], 1e-12 if "translate" not in tf else 1e-9):
+        # under a translation the coordinates themselves are perturbed by an ulp of the offset, so alternatives closer than the
+        # probability tolerance are indistinguishable ("tie") there
+        if c1["lp"] is not None and base.close(c1["lp"], c2["lp"], 1e-12 if "translate" not in tf else tol):
             classes.append("tie-different-path")
         else:
             raise Violation(f"path.{what}", f"original path {want} (renamed), transformed path {c2['keys']}")
@@ -89,7 +91,7 @@ def check_case(case, ctx):
 def strategy(tier):
     @st.composite
     def _s(draw):
-        case = draw(common.mixed_case(tier, ne_share=3, min_len=2))
+        case = draw(gen.fork_case()) if draw(st.integers(0, 5)) == 0 else draw(common.mixed_case(tier, ne_share=3, min_len=2))
         g = case["graph"]
         n = len(g)
         kind = draw(st.sampled_from(["relabel", "reorder", "swap", "scale", "scale", "translate", "all"]))
